@@ -3,11 +3,15 @@
 //!       an open tunnel stream, 8 = idle TLS connection (HTTP/1.1, no request yet), 16 = idle HTTP/2 connection,
 //!       32 = before the submission, wait 300 ms for completion (it must stay pending: the listener is a participant),
 //!       64 = HTTP/1.1 tunnel whose upload is stalled: the destination accepts and never reads, the client has written until
-//!            nothing more was taken for 400 ms (the whole path is full: the session holds a chunk it cannot hand on)]
+//!            nothing more was taken for 400 ms (the whole path is full: the session holds a chunk it cannot hand on),
+//!       128 = HTTP/1.1 tunnel whose download is stalled: the destination writes without end, the client has read the response
+//!            head and reads nothing more (the whole path is full: the session holds a message it cannot write). Its wind-down
+//!            bit says that the endpoint ended the connection: the client reads on after the completion wait and finds the end
+//!            of the connection within 5 s; the completion wait is 20 s when this bit is set]
 //! out: [996] | [sessions established mask,
 //!       listener returned Ok after the submission,
 //!       wound-down mask (HTTP/1.1: closed by the endpoint; HTTP/2: GOAWAY / connection ended; HTTP/3: QUIC connection closed),
-//!       completion returned (within 3 s of the submission),
+//!       completion returned (within 3 s of the submission; 20 s with bit 128),
 //!       completion returned before the last session had been wound down (0|1),
 //!       a new TCP connection is still accepted afterwards (0|1),
 //!       completion returned before anything was submitted (0|1)]
@@ -50,6 +54,29 @@ pub fn run(toks: Vec<Tok>) -> Vec<Tok> {
             loop {
                 if let Ok((s, _)) = deaf_l.accept().await {
                     held.push(s);
+                }
+            }
+        });
+        // a destination that writes without end and never reads (bit 128); it counts what its socket has taken
+        let flood_l = TcpListener::bind("127.0.0.1:0").await.unwrap();
+        let flood = flood_l.local_addr().unwrap();
+        let flooded = std::sync::Arc::new(std::sync::atomic::AtomicU64::new(0));
+        tokio::spawn({
+            let flooded = flooded.clone();
+            async move {
+                loop {
+                    if let Ok((mut s, _)) = flood_l.accept().await {
+                        let flooded = flooded.clone();
+                        tokio::spawn(async move {
+                            let chunk = vec![0x33u8; 64 * 1024];
+                            loop {
+                                match s.write(&chunk).await {
+                                    Ok(n) if n > 0 => flooded.fetch_add(n as u64, std::sync::atomic::Ordering::SeqCst),
+                                    _ => return,
+                                };
+                            }
+                        });
+                    }
                 }
             }
         });
@@ -125,6 +152,37 @@ pub fn run(toks: Vec<Tok>) -> Vec<Tok> {
                     if stalled {
                         established |= 64;
                         h1_stalled = Some(s);
+                    }
+                }
+            }
+        }
+        // 128: HTTP/1.1 tunnel whose download is stalled: the destination floods, the client reads the head and then nothing
+        let mut h1_deaf_client = None;
+        if mask & 128 != 0 {
+            if let Some(mut s) = crate::front::tls_connect(ep.addr, "localhost", &[b"http/1.1"]).await {
+                let _ = s.write_all(format!("CONNECT {} HTTP/1.1\r\nHost: x\r\n\r\n", flood).as_bytes()).await;
+                let mut buf = [0u8; 64];
+                if let Ok(Ok(n)) = tokio::time::timeout(Duration::from_secs(3), s.read(&mut buf)).await {
+                    if buf[..n].starts_with(b"HTTP/1.1 200") {
+                        // the path fills up: wait until the destination's socket has taken nothing more for 500 ms (at most 15 s)
+                        let t0 = std::time::Instant::now();
+                        let (mut last, mut since) = (0u64, std::time::Instant::now());
+                        let mut stalled = false;
+                        while t0.elapsed() < Duration::from_secs(15) {
+                            tokio::time::sleep(Duration::from_millis(50)).await;
+                            let now = flooded.load(std::sync::atomic::Ordering::SeqCst);
+                            if now != last {
+                                last = now;
+                                since = std::time::Instant::now();
+                            } else if now > 0 && since.elapsed() >= Duration::from_millis(500) {
+                                stalled = true;
+                                break;
+                            }
+                        }
+                        if stalled {
+                            established |= 128;
+                            h1_deaf_client = Some(s);
+                        }
                     }
                 }
             }
@@ -278,11 +336,28 @@ pub fn run(toks: Vec<Tok>) -> Vec<Tok> {
         let listener_ok = matches!(tokio::time::timeout(Duration::from_secs(3), &mut ep.task).await, Ok(Ok(Ok(()))));
         let completion = {
             let mut g = shutdown.lock().unwrap();
-            tokio::time::timeout(Duration::from_secs(3), g.completion()).await.is_ok()
+            tokio::time::timeout(Duration::from_secs(if mask & 128 != 0 { 20 } else { 3 }), g.completion()).await.is_ok()
         };
         let completion_ms = submitted.elapsed().as_millis() as u64;
         for w in watchers {
             let _ = w.await;
+        }
+        if let Some(mut s) = h1_deaf_client {
+            // only now the client reads on: whatever was on its way, and then the end of the connection
+            let mut buf = vec![0u8; 64 * 1024];
+            let ended = tokio::time::timeout(Duration::from_secs(5), async {
+                loop {
+                    match s.read(&mut buf).await {
+                        Ok(0) | Err(_) => break,
+                        Ok(_) => continue,
+                    }
+                }
+            })
+            .await
+            .is_ok();
+            if ended {
+                wound.fetch_or(128, std::sync::atomic::Ordering::SeqCst);
+            }
         }
         let w = wound.load(std::sync::atomic::Ordering::SeqCst) as u128;
         // completion before the last wind-down was seen by its client, by more than the time the notice needs to travel
